@@ -808,8 +808,23 @@ def s17(rep):
 
     where = "ti_tdn.c:%d (%s)" % (st["l"], name)
     seen_absent = seen_type = False
-    for a in atoms(st["c"][0]):
+    # the conjuncts of the deciding `if` and of every `if` around it (nested ifs are a conjunction; on an else side, negated)
+    conj = [(False, a) for a in atoms(st["c"][0])]
+    par = common.parents(f.funcs[name]["body"])
+    cur = st
+    while cur["id"] in par:
+        up = par[cur["id"]]
+        if up["k"] == "IfStmt":
+            if any(y is cur for y in walk(up["c"][1])):
+                conj += [(False, a) for a in atoms(up["c"][0])]
+            elif len(atoms(up["c"][0])) == 1:
+                conj += [(True, atoms(up["c"][0])[0])]
+        cur = up
+    for flip, a in conj:
         neg, e = resolve(a)
+        neg = neg != flip
+        if e is not None and any(y.get("n") == "AB_Return" or y.get("mac") == "AB_Return" for y in walk(e)):
+            continue                                           # `this is a return statement`: the context, not the judgement
         if e is None:
             raise AnalysisBroken(where + ": empty conjunct")
         if any(y.get("n") == "AB_Nothing" or y.get("mac") == "AB_Nothing" for y in walk(e)) and not neg:
